@@ -437,6 +437,8 @@ pub struct Node {
 	pub check_styles: bool,
 	/// the node's operator turned cheater and took the node down for good (profile `justice`)
 	pub gone: bool,
+	/// step of the last Pump / Drain (both make the manager poll its monitors' pending events)
+	pub last_poll_step: u64,
 }
 
 #[derive(Clone, Debug)]
@@ -567,6 +569,7 @@ pub struct World {
 	pub tampers_done: u32,
 	pub onion: crate::onionline::OnionState,
 	pub corrupt_in_progress: bool,
+	pub last_reorg_step: u64,
 	/// batch-sweep checks already made: (node, number of outputs, first outpoint)
 	pub batch_sweep_checked: BTreeSet<(usize, usize, bitcoin::OutPoint)>,
 	/// C08: nodes currently cut off; nodes that were ever cut off or gone; last HTLC views
@@ -705,11 +708,20 @@ impl World {
 				loaded_gens: Vec::new(),
 				closed_inflight: BTreeSet::new(),
 				check_roundtrip: cfg.profile == "roundtrip",
-				style: if cfg.profile == "chainstyle" { (cfg.node_seed.wrapping_add(idx as u64 * 3) % crate::chainstyle::N_STYLES as u64) as u8 } else { 0 },
+				style: if cfg.profile == "chainstyle" {
+					// debugging aid: VERIF_LIVE_STYLE forces every node's own delivery style
+					match std::env::var("VERIF_LIVE_STYLE").ok().and_then(|v| v.parse::<u8>().ok()) {
+						Some(v) => v % crate::chainstyle::N_STYLES,
+						None => (cfg.node_seed.wrapping_add(idx as u64 * 3) % crate::chainstyle::N_STYLES as u64) as u8,
+					}
+				} else {
+					0
+				},
 				view: Vec::new(),
 				shadows: BTreeMap::new(),
 				check_styles: cfg.profile == "chainstyle",
 				gone: false,
+				last_poll_step: 0,
 			};
 			node.live = Some(build_live(&node, None).expect("fresh node"));
 			nodes.push(node);
@@ -742,6 +754,7 @@ impl World {
 			tampers_done: 0,
 			onion: Default::default(),
 			corrupt_in_progress: false,
+			last_reorg_step: 0,
 			batch_sweep_checked: BTreeSet::new(),
 			partitioned: BTreeSet::new(),
 			ever_unresponsive: BTreeSet::new(),
@@ -988,6 +1001,7 @@ impl World {
 	}
 
 	pub fn do_pump(&mut self, n: usize) -> bool {
+		self.nodes[n].last_poll_step = self.step;
 		let mgr = match self.mgr(n) {
 			Some(m) => m,
 			None => return false,
@@ -1506,6 +1520,7 @@ impl World {
 	// events
 
 	pub fn do_drain(&mut self, n: usize) -> bool {
+		self.nodes[n].last_poll_step = self.step;
 		let (mgr, mon) = match self.nodes[n].live.as_ref() {
 			Some(l) => (Arc::clone(&l.manager), Arc::clone(&l.monitor)),
 			None => return false,
